@@ -5,7 +5,12 @@
 
    The script in the input is an oracle input (what slice.EditScript returned): eval validates it
    (it must consume lhs and produce rhs, or be empty for equal inputs) and builds everything else
-   from it.  A line is a byte list. *)
+   from it.  A line is a byte list.
+
+     C <n> <lhs> <rhs> | (same output)
+
+   No oracle: the model of slice.EditScript (Slice/EditModel.v, property C11) computes the script,
+   i.e. the composed model mdiff_new of Mdiff/MdiffCompose.v predicts everything from the inputs. *)
 
 let leq (a : M.n list) (b : M.n list) = (a = b)
 
@@ -43,6 +48,7 @@ let panic_str = function M.PIndex -> "panic:index" | M.PNil -> "panic:nil" | M.P
 let parse_input inp =
   match words inp with
   | ["D"; n; script; lhs; rhs] -> Some (int_of_string n, script, unhexs lhs, unhexs rhs)
+  | ["C"; n; lhs; rhs] -> Some (int_of_string n, "", unhexs lhs, unhexs rhs)
   | _ -> None
 
 let eval inp =
@@ -50,7 +56,11 @@ let eval inp =
   | None -> "?"
   | Some (n, script, lhs, rhs) ->
     if String.length script >= 6 && String.sub script 0 6 = "panic:" then "ORACLE-PANIC" else
-    let es = parse_edits script in
+    let composed = (script = "") in
+    match (if composed then (match M.edit_script_run leq lhs rhs with M.EOk es -> Some es | _ -> None)
+           else Some (parse_edits script)) with
+    | None -> "MODEL-OF-EDITSCRIPT-PANICS"
+    | Some es ->
     if not (M.script_okb leq lhs rhs es) then "BAD-ORACLE: the recorded script does not transform lhs into rhs" else
     let ((c0, c1), c2) = M.pipeline leq lhs rhs es (z_of_int n) in
     let out = "E=" ^ str_edits es ^ " N=" ^ str_chunks c0 in
